@@ -7,7 +7,7 @@
    the violated clause.  INVARIANT Accepted;  tlc -continue reports every rejected trace.
 
    C01 record: in (input bytes), entry (0 Parse, 1 NewBlockParser over a one-shot reader, 2 one line per Read,
-               3 three bytes per Read; blocks are inspected after the last one was returned), recs [so, eo, line, len(Source),
+               3 three bytes per Read, 4 / 5 data with EOF / drip reader, 6 other parser values at work between the calls; blocks are inspected after the last one was returned), recs [so, eo, line, len(Source),
                aliased, clipped], srcs (Source bytes), same (caller's buffer unchanged after parse +
                render + format), nul, err; long = 1 -> bytes not shipped, derived flags der/tailb.
    C08 record: cut, fail, exp/expr (interned dumps of Parse(input[0..cut)) and its reference map),
